@@ -206,6 +206,26 @@ def check_twin(ld, prog, seed, rngkind, res):
         res.count('frozen_checks')
         if not (fe[0] == fe[1] == fe[2]):
             res.violation('frozen-copy-changes', case, {'epochs': fe}, sig=sig)
+        # ... also while the dataset it was copied from keeps being used
+        src = build(ld, prog, seed, rngkind)
+        try:
+            fz2 = src.copy(freeze=True)
+        except NotImplementedError:
+            fz2 = None
+        if fz2 is not None:
+            np.random.seed(61)
+            e0 = list(fz2)
+            it = iter(fz2)
+            head = list(itertools.islice(it, max(1, len(e0) // 2)))
+            list(src)                      # the source draws its next order
+            src.copy(freeze=True)          # and another frozen copy is taken
+            tail = list(it)
+            e1 = list(fz2)
+            res.count('frozen_checks_with_live_source')
+            if head + tail != e0 or e1 != e0:
+                res.violation('frozen-copy-follows-its-source', case,
+                              {'first': e0, 'interrupted': head + tail, 'after': e1},
+                              sig=sig)
         if all_ids(fe[0]) != all_ids(a[0]):
             res.violation('frozen-copy-other-examples', case,
                           {'frozen': fe[0], 'twin_first_epoch': a[0]}, sig=sig)
